@@ -14,6 +14,9 @@ ADDUCT_IONS = ["H+", "Na+", "K+", "Li+", "Mg2+", "Ca2+", "Cl-", "I-", "e-"]
 NOARG = -99
 
 
+
+RULE_EXTRA = ('one object asked twice; repeated monosaccharide names; tagged bare numbers (21#g1); terminal targets spelled N-term / C-term.')
+
 def adduct_string(rnd):
     parts = []
     for ion in rnd.sample(ADDUCT_IONS, rnd.choice([1, 1, 2, 3])):
